@@ -17,6 +17,7 @@ import (
 const smtHeader = `(set-option :produce-models true)
 (set-logic ALL)
 (declare-datatypes ((Slice 0)) (((mk_slice (s_base Int) (s_off Int) (s_len Int) (s_cap Int)))))
+(declare-fun born (Int) Int)
 (define-fun godiv ((a Int) (b Int)) Int (ite (>= a 0) (ite (> b 0) (div a b) (- (div a (- b)))) (ite (> b 0) (- (div (- a) b)) (div (- a) (- b)))))
 (define-fun gomod ((a Int) (b Int)) Int (- a (* b (godiv a b))))
 `
